@@ -66,21 +66,25 @@ def tags_in_text(text):
 
 
 def template_mentions(unit, pid):
-    """does the template of `unit` (with its includes and spliced contracts) carry a tag of `pid`?"""
+    """does the template of `unit` carry a tag of `pid` in a file it OWNS (its own template, the shared includes it owns,
+    and the contract files those splice)?"""
     seen = set()
 
-    def walk(path):
+    def walk(path, owner):
         if path in seen or not os.path.exists(path):
             return False
         seen.add(path)
         txt = open(path).read()
-        if any(pid in m.group(1).split('+') for m in TAG_RE.finditer(txt)):
+        if (owner is None or owner == unit) and any(pid in m.group(1).split('+') for m in TAG_RE.finditer(txt)):
             return True
-        for m in re.finditer(r'^\s*//@(?:include|splice)\s+(\S+)', txt, re.M):
-            if walk(os.path.join(ROOT, m.group(1))):
+        for m in re.finditer(r'^\s*//@(include|splice)\s+(\S+)', txt, re.M):
+            rel = m.group(2)
+            # a spliced contract belongs to the file that splices it; an included file to its owner
+            ow = owner if m.group(1) == 'splice' else owner_of(rel)
+            if walk(os.path.join(ROOT, rel), ow):
                 return True
         return False
-    return walk(os.path.join(ROOT, 'units', unit + '.vrs'))
+    return walk(os.path.join(ROOT, 'units', unit + '.vrs'), unit)
 
 
 # Shared include files are verified in every unit that includes them; their obligations are OWNED (counted, and
